@@ -334,6 +334,8 @@ def run_net(case, point):
     if case.get('port2'):
         p2, m2 = case['port2']
         attempt(api, 'H', lambda: mk(lines).transfer(p, m, p2, m2), point, tm)
+        # the same quantity by the documented route (test voltage source, open-circuit voltage) without the ladder shortcut
+        attempt(api, 'H_direct', lambda: mk(lines).apply_test_voltage_source(p, m).Voc(p2, m2), point, tm)
     # ---- which terminal is grounded (floating circuits) ----
     if case.get('swap'):
         attempt(api, 'Zswap', lambda: mk(lines).impedance(m, p), point, tm)
@@ -347,16 +349,21 @@ def run_net(case, point):
         tm['ground_' + g] = round(time.time() - t0, 2)
     # ---- load oracle: original + load  vs  returned model + load ----
     try:
-        groups = [str(k) for k in mk(lines).independent_source_groups().keys()]
+        groups = [str(k) for k in mk(lines).independent_source_groups(transform=True).keys()]
     except Exception:
         groups = ['?']
     res['groups'] = groups
     # the model's source is attached the way the original's sources are: as a dc source when all of them are dc
     # (Lcapy then chooses dc / ivp analysis for original+load and model+load alike), as an s-domain source when none is;
     # a mixture of dc and causal sources is not a single signal kind: no load comparison
-    srckind = 'dc' if groups == ['dc'] else 's'
+    srckind = 'dc' if (groups == ['dc'] and res.get('kind') != 'ivp') else 's'
     if case.get('load') and len(groups) <= 1:
         ld = subst_load(case['load'], p, m)
+        if groups == ['dc'] and res.get('kind') != 'ivp':
+            # a load with initial conditions would turn the dc (steady state) analysis of the original into an initial value
+            # problem (unspecified initial conditions = 0): a different signal kind.  Attach the load without them.
+            ld = [' '.join(l.split()[:4]) if l.split()[0] in ('Cld_', 'Lld_') else l for l in ld]
+            res['load_ic_stripped'] = True
         cur = case['load_cur']
         gl = ['W %s 0' % m] if floating else []
         mg = [] if '0' in (p, m) else ['W %s 0' % m]      # reference for the two-element model circuit
